@@ -446,3 +446,138 @@ Proof.
       destruct (ihead_tok t); try exact A0. congruence. }
   cbn [peg_formula]. unfold f_operand. destruct f as [|f']; [lia|]. cbn [f_prefixes]. rewrite P0, P1. reflexivity.
 Qed.
+
+(* ---------- sizes ---------- *)
+Fixpoint fsize (f : formula) : nat :=
+  match f with
+  | FAtomic a => S (asize a)
+  | FNot g => S (fsize g)
+  | FBin _ l r => S (S (fsize l + fsize r))
+  | FQ _ _ g => S (fsize g)
+  end.
+
+(* ---------- the integer-term parser on the printed form of a formula (for "<-" read as "<" "-") ---------- *)
+Lemma wf_atomic_guards a : wf_atomic a = true -> match a with ACmp _ [] => False | _ => True end.
+Proof. destruct a as [| |p ts|t [|g gs]]; try exact (fun _ => I). cbn. rewrite andb_false_r. discriminate. Qed.
+
+Lemma iterm_on_formula : forall g n R, fsize g < n -> wf_formula g = true ->
+  peg_iterm n (print_formula false g ++ R) = Fail \/
+  exists t rl r', peg_iterm n (print_formula false g ++ R) = Ok t (TRel rl :: r').
+Proof.
+  induction g as [a|g IH|c l IHl r IHr|q vs g IH]; intros n R Hn W; (destruct n as [|f]; [lia|]).
+  - cbn [print_formula]. cbn [fsize] in Hn. pose proof (wf_atomic_guards a W) as NE.
+    destruct a as [| |p ts|t gs].
+    + left. apply peg_iterm_fail_tok. exact I.
+    + left. apply peg_iterm_fail_tok. exact I.
+    + left. destruct ts; apply peg_iterm_fail_tok; exact I.
+    + destruct gs as [|g0 gs]; [tauto|]. cbn [print_atomic]. rewrite <- app_assoc.
+      destruct (guards_head (g0 :: gs) R) as (rl & rest & EG); [discriminate|]. rewrite EG.
+      destruct t as [| |c|x|it|[s|c|x]]; cbn [print_gterm print_sterm app]; try (left; apply peg_iterm_fail_tok; exact I).
+      right. exists it, rl, rest. apply iterm_rt; [cbn [asize gsize] in Hn; lia|reflexivity].
+  - left. cbn [print_formula]. change (fassoc (FNot g)) with (Some ALeft). cbn [fmt_unary is_left tsp app].
+    apply peg_iterm_fail_tok. exact I.
+  - cbn [print_formula tsp app]. cbn [wf_formula] in W. apply andb_true_iff in W. destruct W as [Wl Wr]. cbn [fsize] in Hn.
+    rewrite <- app_assoc. cbn [app].
+    unfold parens at 1. destruct (paren_lhs _ _ _ _).
+    + left. rewrite parens_app.
+      cbn [peg_iterm]. unfold i_operand. cbn [unary_ops n_primary].
+      destruct (IHl f (TRParen :: conn_tok c :: parens (paren_rhs (fprec (FBin c l r)) (fprec r) (fmand r) (fassoc (FBin c l r))) (print_formula false r) ++ R) ltac:(lia) Wl) as [E|(t & rl & r' & E)];
+        rewrite E; reflexivity.
+    + apply IHl; [lia|exact Wl].
+  - left. cbn [print_formula]. change (fassoc (FQ q vs g)) with (Some ALeft).
+    destruct (begins_with_variable _); destruct q; cbn [fmt_unary is_left tsp app print_quantification quant_tok];
+      apply peg_iterm_fail_tok; exact I.
+Qed.
+
+Lemma i_operand_formula_fail : forall r f Y, wf_formula r = true -> starts_int r = false -> fsize r < f ->
+  i_operand (peg_iterm f) (print_formula false r ++ Y) = Fail.
+Proof.
+  induction r as [a|g IH|c l IHl r IHr|q vs g IH]; intros f Y W SI Hf.
+  - cbn [print_formula]. pose proof (wf_atomic_guards a W) as NE. destruct a as [| |p ts|t gs].
+    + reflexivity.
+    + reflexivity.
+    + destruct ts; reflexivity.
+    + destruct gs as [|g0 gs]; [tauto|]. cbn [print_atomic]. rewrite <- app_assoc.
+      destruct t as [| |c|x|it|[s|c|x]]; cbn [starts_int] in SI; try discriminate; reflexivity.
+  - cbn [print_formula]. change (fassoc (FNot g)) with (Some ALeft). reflexivity.
+  - cbn [print_formula tsp app]. cbn [wf_formula] in W. apply andb_true_iff in W. destruct W as [Wl Wr].
+    cbn [fsize] in Hf. cbn [starts_int] in SI. unfold lhs_paren in SI.
+    rewrite <- app_assoc. cbn [app]. unfold parens at 1. destruct (paren_lhs _ _ _ _).
+    + rewrite parens_app. unfold i_operand. cbn [unary_ops n_primary].
+      destruct (iterm_on_formula l f (TRParen :: conn_tok c :: parens (paren_rhs (fprec (FBin c l r)) (fprec r) (fmand r) (fassoc (FBin c l r))) (print_formula false r) ++ Y) ltac:(lia) Wl) as [E|(t & rl & r' & E)];
+        rewrite E; reflexivity.
+    + apply IHl; [exact Wl|exact SI|lia].
+  - cbn [print_formula]. change (fassoc (FQ q vs g)) with (Some ALeft).
+    destruct (begins_with_variable _); destruct q; reflexivity.
+Qed.
+
+Lemma peg_gterm_minus_fail f X : i_operand (peg_iterm f) X = Fail -> peg_gterm (S f) (TMinus :: X) = Fail.
+Proof.
+  intros H. unfold peg_gterm. cbn [peg_iterm]. rewrite i_operand_neg, H. reflexivity.
+Qed.
+
+(* "<-" after a term is not read as "<" "-" when no integer term follows *)
+Lemma rimp_stop_plain r R : wf_formula r = true -> starts_int r = false ->
+  stops_guards (fsize r + 2) (TRimp :: print_formula false r ++ R).
+Proof.
+  intros W SI fuel Hf. destruct fuel as [|[|f]]; try lia.
+  cbn [peg_guards split_rel]. rewrite peg_gterm_minus_fail; [reflexivity|].
+  apply i_operand_formula_fail; [exact W|exact SI|lia].
+Qed.
+Lemma rimp_stop_group r R : wf_formula r = true ->
+  stops_guards (fsize r + 2) (TRimp :: TLParen :: print_formula false r ++ TRParen :: R).
+Proof.
+  intros W fuel Hf. destruct fuel as [|[|f]]; try lia.
+  cbn [peg_guards split_rel]. rewrite peg_gterm_minus_fail; [reflexivity|].
+  unfold i_operand. cbn [unary_ops n_primary].
+  destruct (iterm_on_formula r f (TRParen :: R) ltac:(lia) W) as [E|(t & rl & r' & E)]; rewrite E; reflexivity.
+Qed.
+Lemma other_conn_stops k c X : c <> CRimp -> stops_guards k (conn_tok c :: X).
+Proof. intros Hc fuel Hf. destruct fuel as [|f]; [lia|]. destruct c; try congruence; reflexivity. Qed.
+
+(* ---------- atomic formulas as primaries ---------- *)
+Lemma lead_ident_iterm t X Y : lead_ident (print_iterm false t ++ X) = lead_ident (print_iterm false t ++ Y).
+Proof.
+  revert X Y. induction t as [z|c|y|[] a IH|o l IHl r IHr]; intros X Y.
+  - cbn. unfold num_tok. destruct (z <? 0)%Z; reflexivity.
+  - reflexivity.
+  - reflexivity.
+  - cbn [print_iterm]. rewrite iassoc_left. reflexivity.
+  - cbn [print_iterm tsp app]. rewrite <- !app_assoc. unfold parens at 1 3. destruct (paren_lhs _ _ _ _).
+    + rewrite !parens_app. cbn [lead_ident]. apply IHl.
+    + apply IHl.
+Qed.
+
+Lemma lead_paren_of_head t : ihead_tok t = TLParen -> exists l0 rem, lead_paren t = Some (l0, rem).
+Proof.
+  intros H. destruct (lead_paren t) as [[l0 rem]|] eqn:E; [eauto|]. apply lead_paren_none in E. congruence.
+Qed.
+
+Lemma asize_guards_ge gs : gs <> [] -> 2 <= guards_size gs.
+Proof. destruct gs as [|[rl t] gs]; [congruence|]. intros _. cbn. destruct t as [| | | |it|]; cbn; try lia. destruct it; cbn; lia. Qed.
+
+Lemma atom_ok_wf f a : wf_atomic a = true -> kwi_atomic a = false -> atom_ok (peg_formula f) f a.
+Proof.
+  intros W K. pose proof (wf_atomic_guards a W) as NE. split.
+  - intros k R Hk (HF & HL & HV & HS).
+    assert (A : f_atomic f (print_atomic false a ++ R) = Ok (FAtomic a) R).
+    { unfold f_atomic. rewrite (atomic_rt a k f R); [reflexivity|exact Hk|exact NE|]. split; [exact HF|split; [exact HL|exact HS]]. }
+    destruct (print_atomic_hd false a) as [r E].
+    destruct a as [| |p ts|t gs]; try (rewrite E in *; cbn [ahead_tok app] in *; exact A).
+    destruct gs as [|g0 gs]; [tauto|].
+    destruct t as [| |c|x|it|[s|c|x]]; try (rewrite E in *; cbn [ahead_tok ghead_tok app] in *; exact A).
+    (* integer term first: it may begin with "(" *)
+    cbn [ahead_tok ghead_tok] in E.
+    destruct (lead_paren it) as [[l0 rem]|] eqn:LP.
+    + destruct (lead_paren_some it l0 rem LP) as [EP L].
+      cbn [print_atomic print_gterm] in *. rewrite EP in *. rewrite <- app_assoc in *. cbn [app] in *. rewrite <- app_assoc in *. cbn [app] in *.
+      unfold f_primary. rewrite formula_fails_on_iterm; [exact A| |].
+      * cbn [asize gsize] in Hk. pose proof (asize_guards_ge (g0 :: gs) ltac:(discriminate)). lia.
+      * unfold kwi_atomic in K. cbn [print_atomic print_gterm] in K. rewrite EP in K. cbn [app lead_ident] in K.
+        unfold lead_safe. rewrite <- app_assoc in K.
+        rewrite (lead_ident_iterm l0 _ ((TRParen :: rem) ++ print_guards false (g0 :: gs))).
+        destruct (lead_ident _); [exact K|exact I].
+    + pose proof (lead_paren_none it LP) as NL. rewrite E in *. cbn [app] in *. unfold f_primary.
+      destruct (ihead_tok it); try exact A. congruence.
+  - intros k R (HF & HL & HV & HS). apply atomic_no_prefix; assumption.
+Qed.
